@@ -26,7 +26,9 @@
 #include <unistd.h>
 
 #include "raid/internal.h"
+#ifdef CONFIG_X86
 #include "raid/cpu.h"
+#endif
 
 /* ------------------------------------------------------------------------------------------------- */
 /* witness */
